@@ -1,7 +1,7 @@
 (* C19 — any editing history leaves a consistent module.  Model: Model/History.v.
    Statements only. *)
 From Coq Require Import List Arith Bool.
-From JV Require Import SetNcomp History HistoryFacts.
+From JV Require Import SetNcomp History HistoryFacts HistoryRefs HistoryRefsFacts.
 Import ListNotations.
 
 (* for EVERY accepted sequence of insert / delete_channel / set / set_ncomp / add_to_group /
@@ -47,3 +47,22 @@ Proof. exact delete_trainables_old_refuted. Qed.
 Example C19_nonvacuous :
   all_valid owns_ex 2 (init 3) [Insert 0 [0; 2]; AddToGroup 0 [1; 2]; SetNcomp 0 1 2; Record_ [3]].
 Proof. exact c19_example. Qed.
+
+(* ---- references to channel states and parameters (Model/HistoryRefs.v, compared with the code on the acceptance
+   of every call and on the final recordings) ----
+   delete_channel refuses to leave a reference dangling (repairs F65, F69).  For EVERY history of insert,
+   delete_channel, record / clamp / make_trainable and their deletion through arbitrary views - any ownership of
+   columns by channels, shared columns and shared currents included - every reference names a column that some
+   channel still present in the module owns. *)
+Theorem C19_references_stay_known : forall (owns : nat -> list nat) (nchan : nat) (ops : list rop) (s : rst),
+  Forall safe ops -> refs_known owns nchan s = true -> refs_known owns nchan (rrun owns nchan s ops) = true.
+Proof. exact history_keeps_refs_known. Qed.
+
+(* the tree as given (no refusal) and the first repair (references on the cleared rows only) are refuted *)
+Theorem C19_delete_channel_without_refusal_refuted :
+  refs_known ow2 2 (rrun ow2 2 rinit [RInsert 0 [0; 1]; RRef 0 [0]; RDeleteOld 0 [0; 1]]) = false.
+Proof. exact old_delete_refuted. Qed.
+Theorem C19_first_repair_refuted :
+  refs_known ow2 2 (rrun ow2 2 rinit [RInsert 0 [0; 1]; RRef 0 [0; 1; 2; 3]; RUnref [0; 1]; RDeleteF65 0 [0; 1]]) = false /\
+  accepted ow2 2 rinit [RInsert 0 [0; 1]; RRef 0 [0; 1; 2; 3]; RUnref [0; 1]; RDelete 0 [0; 1]] = [true; true; true; false].
+Proof. exact first_repair_refuted. Qed.
